@@ -34,8 +34,8 @@ GRIDS19 = {
     'sq3g2t': ((1, 1, 1), (1, 1), True),
     'L3g2t': ((1, 2, 1), (1, 2), True),
 }
-QUICK = dict(grids=['sq3g', 'L3g', 'int2o'], hist=1, sigmas=[1, 2])
-THOROUGH = dict(grids=['sq3g', 'sq4g', 'L3g', 'L4g', 'int2o', 'sq3g2t', 'L3g2t'], hist=2, sigmas=[1, 2])
+QUICK = dict(grids=['sq3g', 'L3g', 'int2o'], hist=1, sigmas=[1, 1.5, 2])
+THOROUGH = dict(grids=['sq3g', 'sq4g', 'L3g', 'L4g', 'int2o', 'sq3g2t', 'L3g2t'], hist=2, sigmas=[1, 1.5, 2])
 
 
 def grade_and_check(eng, mesh, sigma, fail):
@@ -89,6 +89,11 @@ def run_one(eng, M, gridname, sigma, hist_len, fail, concrete=None):
         # bounded parabolic ratio of the unit cell => bounded number of sweeps
         ratio = RATIO_DIRECTED if (isinstance(hist_len, (tuple, list)) or len(sigmas) > 1) else RATIO
         for sg in sigmas:
+            if Fraction(sg).denominator == 2:
+                # w**(n/2) is a fresh positive atom: no comparison relates it to w other than through h_x**sigma
+                pw = eng.real('pw_%d_2' % Fraction(sg).numerator)
+                eng.assume(pw > 0)
+                eng.register_pow(w, Fraction(sg), pw)
             eng.assume(w**sg * ratio >= tau)
             eng.assume(w**sg <= ratio * tau)
         xs, ts = cumul(sm, w), cumul(tm, tau)
@@ -137,6 +142,10 @@ def replay(rp):
     vals = rp.get('values') or {}
     try:
         w, tau = float(Fraction(vals['w'])), float(Fraction(vals['tau']))
+        sg0 = rp['sigma'][0] if isinstance(rp['sigma'], (list, tuple)) else rp['sigma']
+        if Fraction(sg0).denominator == 2:
+            # the model fixes w**sigma (atom pw_n_2), not w
+            w = float(Fraction(vals['pw_%d_2' % Fraction(sg0).numerator]))**(1 / float(sg0))
     except Exception:
         return False
     if not (w > 0 and tau > 0):
@@ -255,7 +264,7 @@ def run(out):
                 cases.append((g, sigma, 0, (), out.seed))
     # two gradings with different exponents on one mesh object
     for g in (['sq3g', 'L3g'] if out.tier == 'quick' else ['sq3g', 'L3g', 'L4g', 'int2o', 'sq3g2t']):
-        for pair in ((2, 1), (1, 2)):
+        for pair in ((2, 1), (1, 2), (1.5, 2), (1, 1.5)):
             cases.append((g, pair, 0, (), out.seed))
     # point-directed histories on the single-slab grids
     quick = out.tier == 'quick'
@@ -279,10 +288,10 @@ def run(out):
                       directed_histories='ks <= 4 space and kt <= 6 time bisections of the leaf at a corner point of a root cell (%s)' % ('(4,6), space first, corners at t = 0' if quick else 'ten (ks,kt) combinations, three orders, all corners'), sigma=cfg['sigmas'], K=K,
                       root_ratio='w, tau symbolic with 1/%d <= w^sigma/tau <= %d (bounds the sweeps); 1/%d .. %d for the directed histories' % (RATIO, RATIO, RATIO_DIRECTED, RATIO_DIRECTED),
                       decisions_per_path=6000)
-    out.outside = ['sigma = 1.5 (fractional power)', 'unit-cell ratios beyond the stated window',
+    out.outside = ['exponents other than 1, 3/2, 2', 'unit-cell ratios beyond the stated window',
                    'root grids whose cell widths are not in the ratios of a shipped curve (1:1 and 1:2)', 'longer histories',
                    'floating-point rounding']
-    out.assumptions = ['real arithmetic', 'Ref for the invariants (as C02)', 'print replaced by a no-op']
+    out.assumptions = ['real arithmetic', 'sigma = 3/2: w**(3/2) is a fresh positive atom (no comparison in the code relates it to w itself), (c*w)**(3/2) = c**(3/2) * atom with sqrt(2) an exact algebraic constant', 'Ref for the invariants (as C02)', 'print replaced by a no-op']
     states = sum(p.get('states', 0) for p in out.parts.values())
     out.coverage['states'] = states
     out.coverage['transitions'] = sum(p.get('transitions', 0) for p in out.parts.values())
